@@ -583,6 +583,34 @@ def eviction_loops(ctx) -> List[Tuple[str, Func, ast.While, Tuple[str, ...], str
     return out
 
 
+def rule_ring_pairing(ctx) -> None:
+    """DedupeRing keeps a deque of slots and a reference count per value; membership is answered from the counts.  The two stay
+    consistent ("internally consistent for every sequence of operations") only if every method that lowers or drops a count also
+    takes a slot out of the deque, and every method that raises a count puts one in."""
+    RING = "clematis.engine.util.ring:DedupeRing"
+    n_m = 0
+    for mname, fn in sorted(ctx.prog.methods(RING).items()):
+        if mname in ("__init__", "contains", "__contains__", "__len__", "tolist", "extend"):
+            continue
+        lowers = [x for x in walk_no_defs(fn.node) if (isinstance(x, ast.Call) and isinstance(x.func, ast.Attribute) and x.func.attr in ("pop", "clear") and src(x.func.value) == "self._ref")
+                  or (isinstance(x, ast.AugAssign) and isinstance(x.op, ast.Sub) and any(isinstance(d.value, ast.BinOp) or True for d in []))]
+        # c = self._ref.get(x) ...; c -= 1 / c - 1 ...; self._ref[x] = c   (a store of a decremented count)
+        dec = any(isinstance(x, ast.AugAssign) and isinstance(x.op, ast.Sub) for x in walk_no_defs(fn.node)) or any(isinstance(x, ast.BinOp) and isinstance(x.op, ast.Sub) and "_ref" in src(x) for x in walk_no_defs(fn.node))
+        raises_ = any(isinstance(x, ast.Assign) and any(isinstance(t, ast.Subscript) and src(t.value) == "self._ref" for t in x.targets) and isinstance(x.value, ast.BinOp) and isinstance(x.value.op, ast.Add)
+                      for x in walk_no_defs(fn.node))
+        q_out = any(isinstance(x, ast.Call) and isinstance(x.func, ast.Attribute) and x.func.attr in ("popleft", "remove", "clear", "pop") and src(x.func.value) == "self._q" for x in walk_no_defs(fn.node))
+        q_in = any(isinstance(x, ast.Call) and isinstance(x.func, ast.Attribute) and x.func.attr in ("append", "appendleft") and src(x.func.value) == "self._q" for x in walk_no_defs(fn.node))
+        if not (lowers or dec or raises_):
+            continue
+        n_m += 1
+        ok = (not (lowers or dec) or q_out) and (not raises_ or q_in)
+        ctx.check(ok, "C15.ACCT", f"{fn.qual}/count-and-slot-move-together", fn.loc(),
+                  "every change of a reference count is paired with the slot entering / leaving the deque",
+                  f"{mname} lowers a reference count without taking a slot out of the deque (or raises one without adding a slot): the dead slot is evicted later and lowers the count of a live copy "
+                  "again, so membership is lost for a value that is physically in the ring")
+    ctx.floor("C15.ACCT", "DedupeRing methods that change reference counts", n_m, 3)
+
+
 def rule_evict_completes(ctx) -> None:
     """the eviction loop is what restores `size <= cap`; it does so only if it runs until its own condition is false.  A break,
     a return, or an exception from the user's eviction callback that is swallowed by a handler *around* the loop (instead of
@@ -607,6 +635,7 @@ def rule_evict_completes(ctx) -> None:
 
 def run(ctx) -> None:
     rule_evict_completes(ctx)
+    rule_ring_pairing(ctx)
     rule_lock(ctx)
     rule_clock(ctx)
     rule_ttl_stamp(ctx)
